@@ -13,6 +13,7 @@ def exes():
     txt = "#define VP_COST 1\n" + open(src).read()
     if not os.path.exists(dst) or open(dst).read() != txt: open(dst, "w").write(txt)
     return {"c07-plain": build.link("plain", "c07", ["kernel.c", "c07.c"], LD),
+            "c07-plain-nopool": build.link("plain-nopool", "c07", ["kernel.c", "c07.c"], LD),
             "c07cost-cov": build.link("cov", "c07cost", ["kernel.c", "../build/c07_cost.c"], LD + "".join(" -Wl,--wrap=" + w for w in WRAPS.split(",")))}
 def prepare(): exes()
 
@@ -23,12 +24,13 @@ def corpus():
 def run(tier):
     rep = core.Report("C07", tier, "exploration")
     rep.rule = ("stack grid: 29 nesting constructs (brackets, emphasis, quotes, CriticMarkup, math, braces, block-quote and list staircases, nested definitions, fences in lists, HTML) x {openers only, matched, closers only} x depth ladder x "
-                "{html, latex, fodt, opml, itmz, critic accept/reject, OPML import} under an 8 MB stack: the call must return; cost grid: for every seed d (each line kind, block seeds, the published pathological patterns, the repository's test documents) "
+                "{html, latex, fodt, opml, itmz, critic accept/reject, OPML import} under an 8 MB stack, with and without the token pool: the call must return; cost grid: for every seed d (each line kind, block seeds, the published pathological patterns, the repository's test documents) "
                 "and doubling k, executed basic blocks + bytes touched by libc string functions must satisfy cost(d^2k)/cost(d^k) <= 2.6; distinct = distinct output/cost hashes")
     rep.assumptions = ["a (construct, depth) cell that exceeds the per-case time cap is reported as not covered, never as a failure", "the cost threshold 2.6 sits between n log n (<= 2.2) and quadratic (-> 4) and was fixed before measuring"]
     ex = exes()
     os.environ["VP_CORPUS"] = "\n".join(c for c in corpus() if os.path.getsize(c) < (6000 if tier == "quick" else 40000))
     core.run_driver(rep, ex["c07-plain"], tier, "plain", hang=8 if tier == "quick" else 120)
+    core.run_driver(rep, ex["c07-plain-nopool"], tier, "plain-nopool", hang=8 if tier == "quick" else 120)      # without the pool the tree is freed token by token
     core.run_driver(rep, ex["c07cost-cov"], tier, "cov", levels=["cost"], hang=120 if tier == "quick" else 600)
     # hangs are uncovered cells, not failures
     uncovered = []
